@@ -182,6 +182,24 @@ func c05Check(o *Oracle, c offCase) (ok bool, kind, detail, resp string) {
 		return true, "", "", ""
 	}
 	closed := clip.EndType(c.ET) == clip.Polygon
+	if !closed && len(c.Paths) > 1 {
+		// several polylines in one call, far apart: the result must be, as a region, the union of
+		// what each polyline gives when offset alone (each is stroked as if it were the only one)
+		var alone clip.Paths64
+		for _, p := range c.Paths {
+			one := c
+			one.Paths = clip.Paths64{p}
+			o1, f1 := runOffset(one)
+			if f1 != "" {
+				return true, "", "", ""
+			}
+			alone = append(alone, o1...)
+		}
+		if k, r := askRegion(o, regionLine("eqnz", nil, 4, []int{0, 1}, []clip.Paths64{out, alone})); !k {
+			return false, "path-independence", fmt.Sprintf("delta=%v join=%d end=%d: offsetting %v together differs from offsetting each alone: %s; together=%v alone=%v", c.Delta, c.JT, c.ET, c.Paths, trunc(r, 200), trunc(fmt.Sprint(out), 400), trunc(fmt.Sprint(alone), 400)), r
+		}
+		return true, "", "", "ok judged=4"
+	}
 	if math.Abs(c.Delta) < 0.5 {
 		var want clip.Paths64
 		for _, p := range c.Paths {
@@ -368,6 +386,21 @@ func init() {
 			}
 			c := offCase{Paths: clip.Paths64{p}, JT: r.Intn(4), ET: r.Range(1, 4), Miter: 2, ArcTol: []float64{0, 0.25}[r.Intn(2)]}
 			c.Delta = []float64{0.5, 4, 6, 9, 15}[r.Intn(5)]
+			if c.ET == 1 && r.Chance(0.35) {
+				// several polylines in one call (far apart, so that their strokes do not interact): each
+				// must be stroked as if it were alone, whatever the others look like
+				a := g.pt(r)
+				b := g.pt(r)
+				for a == b {
+					b = g.pt(r)
+				}
+				two := clip.TranslatePath64(clip.Path64{a, b}, 400, 400)
+				if r.Bool() {
+					c.Paths = clip.Paths64{two, p}
+				} else {
+					c.Paths = clip.Paths64{p, two}
+				}
+			}
 			return c
 		})
 }
